@@ -478,10 +478,9 @@ fn c11_composite_glyph() {
 /// length is read from the glyph stream as soon as ANY component carries WE_HAVE_INSTRUCTIONS
 /// (not just the last one), and the glyph that follows is decoded from the right stream
 /// positions.
-// @tier thorough
 // @bound 2 glyphs: a composite with two components (byte xy arguments; WE_HAVE_INSTRUCTIONS symbolic on each) with 2 instruction bytes, then an empty glyph; symbolic glyph indices, arguments and bbox
 #[kani::proof]
-#[kani::unwind(10)]
+#[kani::unwind(5)]
 fn c11_composite_two_components() {
     let i0: bool = kani::any();
     let i1: bool = kani::any();
@@ -510,12 +509,16 @@ fn c11_composite_two_components() {
     buf[comp_at + 11] = args[3];
     let bitmap_at = 53;
     buf[bitmap_at] = 0x80;
+    // no copy loop: the unwinding bound also multiplies every loop of the decoder
     let bb: [u8; 8] = kani::any();
-    let mut k = 0;
-    while k < 8 {
-        buf[bitmap_at + 4 + k] = bb[k];
-        k += 1;
-    }
+    buf[bitmap_at + 4] = bb[0];
+    buf[bitmap_at + 5] = bb[1];
+    buf[bitmap_at + 6] = bb[2];
+    buf[bitmap_at + 7] = bb[3];
+    buf[bitmap_at + 8] = bb[4];
+    buf[bitmap_at + 9] = bb[5];
+    buf[bitmap_at + 10] = bb[6];
+    buf[bitmap_at + 11] = bb[7];
     let ins: [u8; 2] = kani::any();
     buf[65] = ins[0];
     buf[66] = ins[1];
